@@ -76,6 +76,11 @@ impl Shm {
     }
 
     pub fn add(&self, i: usize, n: u64) -> u64 {
+        crate::watchdog::beat();
+        if i == C_CASES {
+            // one enumerated case of a component / crash / fault / corruption explorer
+            crate::watchdog::new_execution();
+        }
         self.counter(i).fetch_add(n, Ordering::SeqCst)
     }
 
